@@ -1,7 +1,8 @@
 (** C01 — property theorems only. *)
 From Coq Require Import List ZArith NArith Bool.
 From C33 Require Import Lib.Harness C01.Keys C01.Model C01.Store C01.Spec C01.Inv
-  C01.Proofs C01.ProofsStore C01.ProofsAvl C01.ProofsRange C01.ProofsTop.
+  C01.Proofs C01.ProofsStore C01.ProofsAvl C01.ProofsRange C01.ProofsTop C01.ProofsReads
+  C01.ProofsRemove.
 Import ListNotations.
 Open Scope Z_scope.
 
@@ -32,6 +33,46 @@ Print Assumptions C01_get_set.
 Theorem C01_get_is_lookup : forall t k, ordered t -> snd (get t k) = sget (elements t) k.
 Proof. exact get_elements. Qed.
 Print Assumptions C01_get_is_lookup.
+
+(** [has], the index returned by [get], and [getByIndex] against the in-order leaves. *)
+Theorem C01_has : forall t k, ordered t -> (has t k = true <-> In k (keys t)).
+Proof. exact has_spec. Qed.
+Print Assumptions C01_has.
+
+Theorem C01_get_index : forall t k,
+  ordered t -> sized t -> fst (get t k) = Z.of_nat (rank k (keys t)).
+Proof. exact get_index. Qed.
+Print Assumptions C01_get_index.
+
+Theorem C01_get_by_index : forall t i, sized t ->
+  get_by_index t i =
+  if (0 <=? i) && (i <? size t) then nth_error (elements t) (Z.to_nat i) else None.
+Proof. exact get_by_index_spec. Qed.
+Print Assumptions C01_get_by_index.
+
+(** [remove] (not on the block path; DelKVPair is exported): never panics, keeps
+    order (incl. the newKey re-keying) and sizes, deletes exactly the key, returns
+    its value; and keeps the AVL balance. *)
+Theorem C01_remove_preserves_order : forall t k,
+  ordered t -> sized t -> exists res, remove t k = Some res /\ rm_ok t k res.
+Proof. exact remove_inv. Qed.
+Print Assumptions C01_remove_preserves_order.
+
+Theorem C01_tree_remove : forall o k,
+  o_good o ->
+  exists o' v b, t_remove o k = Some (o', v, b) /\ o_good o' /\
+                 o_elements o' = sdel k (o_elements o) /\ v = sget (o_elements o) k.
+Proof. exact t_remove_inv. Qed.
+Print Assumptions C01_tree_remove.
+
+Theorem C01_remove_preserves_avl : forall t k res,
+  ordered t -> sized t -> balanced t -> remove t k = Some res ->
+  match rm_node res with
+  | Some t' => balanced t' /\ height t - 1 <= height t' <= height t
+  | None => True
+  end.
+Proof. exact remove_balanced. Qed.
+Print Assumptions C01_remove_preserves_avl.
 
 (** traverseInRange with any leaf callback = feeding it the in-range leaves in
     the requested order until it asks to stop. *)
@@ -112,6 +153,11 @@ Qed.
 Example C01_ex_set_rotates :
   option_map (fun p => (height (fst p), size (fst p), snd p)) (set ex_tree (bs "d") (bs "4"))
   = Some (2, 4, false).
+Proof. vm_compute. reflexivity. Qed.
+
+Example C01_ex_remove_rekeys :
+  option_map (fun r => (option_map nkey (rm_node r), rm_value r)) (remove ex_tree (bs "b"))
+  = Some (Some (bs "c"), Some (bs "2")).
 Proof. vm_compute. reflexivity. Qed.
 
 Definition ex_history : list batch :=
